@@ -44,8 +44,9 @@ PROPS["C17"] = dict(
 
 PROPS["C11"] = dict(
     modules=["Hub.Props.C11"],
-    gens=["c11", "c17empty", "c11verify"],
-    rule="(c11.verify) generated job definitions (1-3 triggers of type cron/onchange/unknown, job types, schedules, monitored datasets, error handler lists with known, unknown and duplicate "
+    gens=["c11", "c17empty", "c11verify", "c11race"],
+    rule="(c11.race) eight goroutines ask the real raffle for a ticket for the same job id at the same moment, 1500 rounds (thorough 20000) in a child process: never more than one ticket "
+         "per round, pools intact afterwards; (c11.verify) generated job definitions (1-3 triggers of type cron/onchange/unknown, job types, schedules, monitored datasets, error handler lists with known, unknown and duplicate "
          "types) through the scheduler's own verify: accepted iff the model's verify, and every accepted definition has its per-entity handlers initialised on every trigger; "
          "random borrow/return sequences (5 job ids, pools 0..2 fullsync / 0..3 incremental) against the real raffle, state compared after "
          "every request; non-trivial = at least two grants and one refusal; distinct = distinct sequences",
